@@ -105,7 +105,7 @@ let handle (p : string) : string =
         (if fin.g_runs <> [] then "+runs" else "")
         (if nops <= 5 then "short" else if nops <= 12 then "mid" else "long") in
     ignore sawresp;
-    Printf.sprintf "t=%s;i=%s;conc=%d;ps=%d;dup=%d;ooo=%d;bad=%d;lost=%d;rj=0%s%s;class=%s"
+    Printf.sprintf "t=%s;i=%s;conc=%d;ps=%d;dup=%d;ooo=%d;bad=%d;lost=%d;rj=0;dv=0%s%s;class=%s"
       (String.concat "/" (List.rev !tr)) (String.concat "/" (List.rev !it))
       (int_of_n fin.g_conc) (int_of_n fin.g_psends) (int_of_nat (dups done_)) ooo
       (int_of_nat (bad_data done_)) (int_of_nat (lost fin))
